@@ -4,9 +4,11 @@
    output"), including when a run of equal keys is longer than a chunk (then: the error).  The fuel theorems of
    the other streamed operations are in Props/C04 (map_stream_correct, indexed_stream_correct,
    indexed_entry_too_long_raises_after_fix), Props/C05 (csv_kernel_roundtrip), Props/C16 (concat_session_correct)
-   and Props/C18 (to_csv_terminates), re-compiled by the C12 check. *)
+   and Props/C18 (to_csv_terminates), re-compiled by the C12 check.
+   Second part (extension E3): the number of driver iterations and the total number of kernel loop bodies of
+   the streamed join are LINEAR in input + output size (c12_streamed_join_linear_iterations / _linear_work). *)
 From Coq Require Import ZArith List.
-From EV Require Import Res Arr Join JoinSpec JoinBase JoinIface JoinDriver JoinMain JoinAll.
+From EV Require Import Res Arr Join JoinSpec JoinBase JoinIface JoinDriver JoinMain JoinAll JoinSteps JoinStepsAll.
 Import ListNotations.
 Open Scope Z_scope.
 
@@ -20,3 +22,78 @@ Theorem c12_streamed_join_error_is_clear : forall k is_left L R inv cs c,
   streamed (mkvar k is_left) L R inv cs = Raise c -> c = E_ValueError /\ ~ chunks_ok k cs L R.
 Proof. intros k is_left L R inv cs c Hp Hc. exact (streamed_raises_only_value_error k is_left L R inv cs Hp Hc c). Qed.
 Print Assumptions c12_streamed_join_error_is_clear.
+
+(* ---------------------------------------------------------------------------------------------------------
+   Extension E3: the bound is LINEAR in input + output size (Proofs/JoinSteps.v, JoinStepsAll.v).
+   `streamed_with fm ft` is the driver model with its two loop fuels made explicit; the model itself uses
+   fm = driver_fuel L R = 2(|L|+|R|+|L||R|)+8 and ft = |L|+2. *)
+Theorem c12_streamed_is_streamed_with_model_fuels : forall v L R inv cs,
+  streamed v L R inv cs = streamed_with (driver_fuel L R) (S (S (length L))) v L R inv cs.
+Proof. exact streamed_with_default. Qed.
+Print Assumptions c12_streamed_is_streamed_with_model_fuels.
+
+(* All 8 variants, every chunk size >= 1, all sorted inputs: ANY main-loop fuel above |L|+|R|+|join| and ANY
+   tail-loop fuel above |L| give the result of the model's own (quadratic) fuels, be it the maps or the clear
+   ValueError: the driver's main loop runs at most |L|+|R|+|join|+1 times (the last one is the exit test) and
+   its tail loop at most |L|+1 times.  |join| is the number of rows of the relational join = the output size. *)
+Theorem c12_streamed_join_linear_iterations : forall k is_left L R inv cs,
+  kind_pre k L R -> 1 <= cs ->
+  forall fm ft:nat,
+  (fm > length L + length R + length (join_spec is_left inv L R))%nat -> (ft > length L)%nat ->
+  streamed_with fm ft (mkvar k is_left) L R inv cs = streamed (mkvar k is_left) L R inv cs.
+Proof. exact streamed_linear_iterations. Qed.
+Print Assumptions c12_streamed_join_linear_iterations.
+
+Theorem c12_streamed_join_linear_fuel_terminates : forall k is_left L R inv cs,
+  kind_pre k L R -> 1 <= cs ->
+  forall fm ft:nat,
+  (fm > length L + length R + length (join_spec is_left inv L R))%nat -> (ft > length L)%nat ->
+  streamed_with fm ft (mkvar k is_left) L R inv cs <> OutOfFuel.
+Proof. exact streamed_with_terminates. Qed.
+Print Assumptions c12_streamed_join_linear_fuel_terminates.
+
+(* `streamed_cnt` is the driver model instrumented with counters (kernel calls, loop bodies of the *_partial
+   kernels summed over all calls, loop bodies of the run-length scans inside the general kernels, tail-loop
+   iterations, loop bodies of the *_remaining kernels); dropping the counters gives the model *)
+Theorem c12_streamed_cnt_is_streamed : forall v L R inv cs,
+  streamed v L R inv cs = do x <- streamed_cnt v L R inv cs; Ok (fst x).
+Proof. exact streamed_cnt_is_streamed. Qed.
+Print Assumptions c12_streamed_cnt_is_streamed.
+
+(* total work of every successful run, all 8 variants, every chunk size >= 1:
+     iterations of both driver loops          <= |L|+|R|+|join|
+     loop bodies of all kernel calls together <= 2(|L|+|R|+|join|) + (number of kernel calls)
+     loop bodies of the run-length scans      <= |join| *)
+Theorem c12_streamed_join_linear_work : forall k is_left L R inv cs,
+  kind_pre k L R -> 1 <= cs ->
+  forall out, streamed (mkvar k is_left) L R inv cs = Ok out ->
+  exists c, streamed_cnt (mkvar k is_left) L R inv cs = Ok (out, c) /\
+    (c_calls c + c_tail c <= length L + length R + length (join_spec is_left inv L R))%nat /\
+    (c_ksteps c + c_rsteps c <= 2 * (length L + length R + length (join_spec is_left inv L R)) + c_calls c)%nat /\
+    (c_scan c <= length (join_spec is_left inv L R))%nat.
+Proof. exact streamed_linear_work. Qed.
+Print Assumptions c12_streamed_join_linear_work.
+
+(* the same for every PREFIX of an execution, so also for runs that end in the clear ValueError: `iters ... d0 it ks d'`
+   says that `it` completed iterations of the driver's main loop lead from d0 to d' and executed ks kernel loop bodies;
+   `init_drv cs lc rc` is the state the driver starts in (JoinSteps.streamed_cnt_init, main_loop_cnt_iters) *)
+Theorem c12_streamed_join_linear_work_prefix : forall k is_left L R inv cs,
+  kind_pre k L R -> 1 <= cs ->
+  forall lc rc it ks d',
+  fetch_chunk (v_ltrim (mkvar k is_left)) 0 cs L = Ok lc -> fetch_chunk (v_rtrim (mkvar k is_left)) 0 cs R = Ok rc ->
+  iters k is_left L R inv cs (init_drv cs lc rc) it ks d' ->
+  (it <= length L + length R + length (join_spec is_left inv L R))%nat /\
+  (ks <= 2 * (length L + length R + length (join_spec is_left inv L R)) + it)%nat.
+Proof. exact streamed_linear_work_prefix. Qed.
+Print Assumptions c12_streamed_join_linear_work_prefix.
+
+(* the hypotheses are satisfiable by a non-trivial input; the counters evaluated; too little fuel is OutOfFuel *)
+Theorem c12_linear_nonvacuous :
+  kind_pre KGen [1;1;2;3;3;5;6;8] [1;3;3;4] /\
+  streamed_cnt (mkvar KGen true) [1;1;2;3;3;5;6;8] [1;3;3;4] (-1) 3 =
+    Ok (([0;1;2;3;3;4;4;5;6;7], [0;0;-1;1;2;1;2;-1;-1;-1]), mkcounts 5 10 3 1 3) /\
+  streamed_with 23 9 (mkvar KGen true) [1;1;2;3;3;5;6;8] [1;3;3;4] (-1) 3 =
+    Ok ([0;1;2;3;3;4;4;5;6;7], [0;0;-1;1;2;1;2;-1;-1;-1]) /\
+  streamed_with 5 9 (mkvar KGen true) [1;1;2;3;3;5;6;8] [1;3;3;4] (-1) 3 = OutOfFuel.
+Proof. exact linear_nonvacuous. Qed.
+Print Assumptions c12_linear_nonvacuous.
